@@ -10,3 +10,15 @@ package affiliation
 //@ focus out-of-scope (not (callres "IsPkgInScope"))
 //@ ensures silent-when-out-of-scope (= (calls "effect:") 0)
 //@ ensures empty-result-when-out-of-scope (and (= (len result0) 0) (isnil result1))
+
+//@ -- C09: the cache key of an (interface, implementation) pair. A named implementation is identified by its
+//@ -- import-path-qualified name; the pair keeps (implementation, interface) in that order.
+//@ func getFullyQualifiedName
+//@ prop C09
+//@ pure
+//@ ensures named-type-by-qualified-name (=> (is t *types.Named) (= result (namedFullString (as t *types.Named))))
+//@ ensures other-types-have-no-name (=> (and (not (is t *types.Named)) (not (is t *types.Interface))) (= result ""))
+
+//@ func computeAfflitiationCacheKey
+//@ prop C09
+//@ ensures key-is-the-pair-of-names (and (= result.ImplementedID (call getFullyQualifiedName (iface *types.Named concreteObj))) (= result.DeclaredID (call getFullyQualifiedName (iface *types.Interface interfaceObj))))
